@@ -249,22 +249,60 @@ func nativeReplayBatch(pkgRel string, paths []string, files []string, pkgName st
 			reg = append(reg, fmt.Sprintf("\t%q: %s,", m[1], m[1]))
 		}
 	}
-	for _, c := range []string{"vf_native.go", "vf_native2.go", "vf_lib.go", "vf_replay_test.go.tmpl"} {
+	// The native vf runtime (one shared controller/state) lives in the package under test when that is the root
+	// package; for a dependent package (worker, network) it lives in the root package, is exported through generated
+	// wrappers and reached through generated shims.
+	readCommon := func(c string) string {
 		b, err := os.ReadFile(filepath.Join(verifDir, "harness", "common", c))
+		if err != nil {
+			return ""
+		}
+		return string(b)
+	}
+	writeTmp := func(name, src string) string {
+		real := filepath.Join(tmp, name)
+		os.WriteFile(real, []byte(src), 0o644)
+		return real
+	}
+	native := []string{"vf_native.go", "vf_native2.go"}
+	tmpl := readCommon("vf_replay_test.go.tmpl")
+	tmpl = strings.Replace(tmpl, "package PKG", "package "+pkgName, 1)
+	tmpl = strings.Replace(tmpl, "//REGISTRY", strings.Join(reg, "\n"), 1)
+	lib := strings.Replace(readCommon("vf_lib.go"), "package PKG", "package "+pkgName, 1)
+	ov[filepath.Join(pkgDir, "zz_vf_lib_test.go")] = writeTmp("zz_vf_lib_test.go", lib)
+	if pkgRel == "" {
+		for _, c := range native {
+			src := strings.Replace(readCommon(c), "package PKG", "package "+pkgName, 1)
+			name := "zz_" + strings.TrimSuffix(c, ".go") + "_test.go"
+			ov[filepath.Join(pkgDir, name)] = writeTmp(name, src)
+		}
+		tmpl = strings.Replace(tmpl, "//IMPORT", "", 1)
+		tmpl = strings.Replace(tmpl, "REPLAYMAIN", "vfReplayMain", 1)
+	} else {
+		rootName, err := packageName(repoDir)
 		if err != nil {
 			results[0] = err.Error()
 			return results
 		}
-		src := strings.Replace(string(b), "package PKG", "package "+pkgName, 1)
-		src = strings.Replace(src, "//REGISTRY", strings.Join(reg, "\n"), 1)
-		name := "zz_" + strings.TrimSuffix(strings.TrimSuffix(c, ".tmpl"), ".go")
-		if !strings.HasSuffix(name, "_test") {
-			name += "_test"
+		modPath := modulePath(repoDir)
+		var all string
+		for _, c := range native {
+			src := strings.Replace(readCommon(c), "package PKG", "package "+rootName, 1)
+			name := "zz_" + c // non-test file of the root package
+			ov[filepath.Join(repoDir, name)] = writeTmp("root_"+name, src)
+			all += src
 		}
-		real := filepath.Join(tmp, name+".go")
-		os.WriteFile(real, []byte(src), 0o644)
-		ov[filepath.Join(pkgDir, name+".go")] = real
+		exports, shims, err := gosym.VfWrappers(native, []string{strings.Replace(readCommon(native[0]), "package PKG", "package "+rootName, 1), strings.Replace(readCommon(native[1]), "package PKG", "package "+rootName, 1)}, rootName, pkgName, modPath, readCommon("vf_engine.go"))
+		if err != nil {
+			results[0] = "wrapper generation failed: " + err.Error()
+			return results
+		}
+		ov[filepath.Join(repoDir, "zz_vf_export.go")] = writeTmp("root_zz_vf_export.go", exports)
+		ov[filepath.Join(pkgDir, "zz_vf_shim_test.go")] = writeTmp("zz_vf_shim_test.go", shims)
+		tmpl = strings.Replace(tmpl, "//IMPORT", fmt.Sprintf("\tvfroot %q", modPath), 1)
+		tmpl = strings.Replace(tmpl, "REPLAYMAIN", "vfroot.VfReplayMain", 1)
 	}
+	ov[filepath.Join(pkgDir, "zz_vf_replay_test.go")] = writeTmp("zz_vf_replay_test.go", tmpl)
 	ovb, _ := json.Marshal(map[string]interface{}{"Replace": ov})
 	ovPath := filepath.Join(tmp, "overlay.json")
 	os.WriteFile(ovPath, ovb, 0o644)
@@ -432,4 +470,18 @@ func wantsInstrument(files []string) bool {
 		}
 	}
 	return false
+}
+
+func modulePath(dir string) string {
+	b, err := os.ReadFile(filepath.Join(dir, "go.mod"))
+	if err != nil {
+		return ""
+	}
+	for _, l := range strings.Split(string(b), "\n") {
+		l = strings.TrimSpace(l)
+		if strings.HasPrefix(l, "module ") {
+			return strings.TrimSpace(strings.TrimPrefix(l, "module "))
+		}
+	}
+	return ""
 }
